@@ -110,9 +110,10 @@ def plan(ctx):
         "assumptions": ["within one work unit, two collections for the same instance whose errors agree pairwise and in "
                         "order on (path, keyword, schema path, instance) are the same collection and are explored once "
                         "(ErrorTree reads path, keyword and instance only)",
-                        "errors are taken from real validations only (top-level errors of iter_errors); membership and "
-                        "iteration are probed before any lookup of an error-free element, and error-free elements "
-                        "are indexed on a second, freshly built tree"],
+                        "errors are taken from real validations only (top-level errors of iter_errors)",
+                        "lookup histories (every sequence of <= 2 lookups of an error-free / absent / error-bearing "
+                        "element at every node, each on a freshly built tree, followed by membership, iteration and "
+                        "totals) are explored for the first arrival order of every collection"],
     }
 
 
@@ -163,7 +164,7 @@ class Trie(object):
         self.prefixes = sorted(self.children, key=lambda p: (len(p), repr(p)))
 
 
-def check_order(errors, trie):
+def check_order(errors, trie, history=True):
     """Problems of ErrorTree(errors) against the trie: list of (kind, detail).  Stops at the first category."""
     try:
         tree = ErrorTree(errors)
@@ -245,6 +246,58 @@ def check_order(errors, trie):
                 empty = False
             if not empty:
                 problems.append(("index-error-free|not-an-empty-tree", {"at": list(pre), "element": el}))
+    if not problems and history:
+        return check_history(errors, trie)
+    return problems
+
+
+def check_history(errors, trie):
+    """Every sequence of <= 2 lookups at every node of a freshly built tree (an error-free element that exists,
+    an element that neither the instance nor the tree has, an element with errors); lookups are questions:
+    afterwards membership, iteration, total_errors and len() must still say exactly what the errors say."""
+    problems = []
+    for pre in trie.prefixes:
+        ok, x = trie.instance[pre]
+        want = trie.children[pre]
+        here = elements(x) if ok else []
+        free = [el for el in here if el not in want][:3]
+        absent = [a for a in ABSENT if a not in want and a not in here]
+        ops = [("error-free", el) for el in free] + [("absent", a) for a in absent] + \
+              [("with-errors", el) for el in sorted(want, key=repr)[:2]]
+        seqs = [(o,) for o in ops] + [(a, b) for a in ops for b in ops if (a[0], b[0]) != ("with-errors", "with-errors")]
+        candidates = list(want) + free + absent
+        for seq in seqs:
+            try:
+                tree = ErrorTree(errors)
+                node = tree
+                for el in pre:
+                    node = node[el]
+            except Exception:
+                break       # construction / walking problems are reported by the earlier stages
+            for kind, el in seq:
+                try:
+                    child = node[el]
+                    if kind == "error-free" and (child.total_errors != 0 or child.errors or list(child)):
+                        problems.append(("history|index-error-free|not-an-empty-tree", {"at": list(pre), "lookups": [list(o) for o in seq]}))
+                except Exception as ex:
+                    if kind != "absent":
+                        problems.append(("history|index-%s|%s" % (kind, type(ex).__name__),
+                                         {"at": list(pre), "lookups": [list(o) for o in seq]}))
+            it = list(iter(node))
+            what = "+".join(k for k, _ in seq)
+            if set(it) != want or len(it) != len(set(it)):
+                problems.append(("history|iteration-changed-by-lookup|" + what,
+                                 {"at": list(pre), "lookups": [list(o) for o in seq], "got": it, "expected": sorted(want, key=repr)}))
+            else:
+                for el in candidates:
+                    if (el in node) != (el in want):
+                        problems.append(("history|membership-changed-by-lookup|" + what,
+                                         {"at": list(pre), "lookups": [list(o) for o in seq], "element": el}))
+                        break
+            if node.total_errors != trie.below[pre] or len(node) != trie.below[pre] or len(tree) != trie.below[()]:
+                problems.append(("history|totals-changed-by-lookup|" + what, {"at": list(pre), "lookups": [list(o) for o in seq]}))
+            if problems:
+                return problems
     return problems
 
 
@@ -389,12 +442,12 @@ def run_unit(unit, ctx):
             ords, cap = orders(n, limit)
             if cap:
                 capped += 1
-            for order in ords:
+            for oi, order in enumerate(ords):
                 seq = [errors[i] for i in order]
                 ev += 1
                 if interesting:
                     nt += 1
-                problems = check_order(seq, trie)
+                problems = check_order(seq, trie, history=(oi == 0))
                 if not problems:
                     continue
                 kind = problems[0][0]
